@@ -3,7 +3,6 @@ package commitgraph
 import (
 	"crypto"
 	"io"
-	"math"
 
 	"github.com/go-git/go-git/v6/plumbing"
 	"github.com/go-git/go-git/v6/plumbing/hash"
@@ -103,7 +102,10 @@ func (e *Encoder) prepare(idx Index, hashes []plumbing.Hash) (hashToIndex map[pl
 		if len(v.ParentHashes) > 2 {
 			extraEdgesCount += uint32(len(v.ParentHashes) - 1)
 		}
-		if hasGenerationV2 && v.GenerationV2Data() > math.MaxUint32 {
+		// Same threshold as encodeGenerationV2Data: every offset that does not
+		// fit in 31 bits goes to the GDO2 chunk, so it has to be counted here
+		// for the chunk to be declared with the right size.
+		if hasGenerationV2 && v.GenerationV2Data() >= 0x80000000 {
 			generationV2OverflowCount++
 		}
 	}
